@@ -117,6 +117,8 @@ func runC01(c *Ctx) {
 	c01Dual(c)
 	c01Exh(c)
 	c01Facets(c)
+	domainPatternsIndependent(c, "LOWER")
+	c01PnameWidth(c)
 	c.R.Floor("PARSENUM", parseNumSites(c, "PARSENUM", []string{"component/routing"}, func(f string) bool { return f == "function_parser.go" || f == "matcher_builder.go" }), 2)
 }
 
